@@ -48,7 +48,8 @@ def gen(rng):
     ops = [{"op": "new"}]
     explicit = rng.random() < 0.75
     if explicit:
-        ops.append({"op": "seed", "obj": 0, "k": rng.randrange(1 << 20)})
+        ops.append({"op": "seed", "obj": 0, "k": rng.randrange(1 << 20),
+                    "s": rng.choice([None, "top.env.agent0", "u_%d" % rng.randrange(100)])})
     else:
         ops.insert(0, {"op": "seed_global", "k": rng.randrange(1 << 20)})
     nsnap = 0
@@ -72,7 +73,7 @@ def gen(rng):
                 live.remove(i)
             ops.append({"op": "randomize", "obj": 0})
         elif explicit:
-            ops.append({"op": "seed", "obj": 0, "k": rng.randrange(1 << 20)})
+            ops.append({"op": "seed", "obj": 0, "k": rng.randrange(1 << 20), "s": rng.choice([None, None, "top.a[3]"])})
     ops.append({"op": "randomize", "obj": 0})
     scn["ops"] = ops
     scn["explicit"] = explicit
